@@ -708,4 +708,13 @@ def rule_provider_iterated_once(ctx):
 
 
 
-RULES = [('C17.a', rule_a), ('C17.b', rule_b), ('C17.c', rule_c), ('C17.d', rule_d), ('C17.e', rule_e), ('C17.f', rule_f), ('C17.b+C11.a+C11.g', rule_plumbing), ('C17.g', rule_g), ('C14.e', rule_lease_per_connection), ('C17.h', rule_stop_tasks_reentrant), ('C17.i', rule_provider_iterated_once)]
+
+def rule_transport_close_contained(ctx):
+    """C17.j (rules/msgtransports.py): closing the old transport cannot cancel the reconnect - a transport's close()
+    that cancels and awaits its feeder task keeps that task's CancelledError to itself."""
+    from .msgtransports import rule_close_contains_its_own_cancellation
+    rule_close_contains_its_own_cancellation(ctx, 'C17.j')
+
+
+
+RULES = [('C17.a', rule_a), ('C17.b', rule_b), ('C17.c', rule_c), ('C17.d', rule_d), ('C17.e', rule_e), ('C17.f', rule_f), ('C17.b+C11.a+C11.g', rule_plumbing), ('C17.g', rule_g), ('C14.e', rule_lease_per_connection), ('C17.h', rule_stop_tasks_reentrant), ('C17.i', rule_provider_iterated_once), ('C17.j', rule_transport_close_contained)]
